@@ -1,5 +1,6 @@
 import SJ.Proofs.Complete.Main
 import SJ.Proofs.NumLink
+import SJ.Proofs.NumInt
 /-!
 # What the parser machine does on a bare number literal
 
@@ -316,5 +317,75 @@ theorem exact_short_not_overflow (l : NumLit) (hD : l.sigVal < 10 ^ 15) (h2 : l.
     have h3 : (10 : Nat) ^ 15 ≤ 2 ^ 1023 := by decide +kernel
     have : 2 ^ 1023 * 1 ≤ 2 ^ 1023 * 10 ^ (-l.netExp).toNat := Nat.mul_le_mul_left _ h10
     omega
+
+/-! ## integer results are exact (C06, via (A)) -/
+
+theorem isDigits_of_all (ds : Bytes) (h : ds.all Spec.Decimal.isDigit = true) : NumInt.IsDigits ds := by
+  intro c hc
+  have := List.all_eq_true.1 h c hc
+  simpa [Spec.Decimal.isDigit] using this
+
+theorem frac_exp_empty (p : NumParts) (hwf : p.WF = true)
+    (h : NumLink.FloatPath (Model.FloatDefault.partsOfLiteral (litOf p)) → False) :
+    p.frac = [] ∧ p.exp = [] ∧ (partsOf p).frac = none ∧ (partsOf p).exp = none := by
+  have hw := partsOf_wf p hwf
+  have hf : (partsOf p).frac = none := by
+    cases hfr : (partsOf p).frac with
+    | none => rfl
+    | some fds =>
+      exfalso; apply h
+      apply NumLink.partsOfLiteral_floatPath
+      left
+      show (toNumLit (partsOf p)).fracDigits ≠ []
+      simp only [toNumLit, hfr, Option.getD_some]
+      exact (hw.frac fds hfr).1
+  have he : (partsOf p).exp = none := by
+    cases hex : (partsOf p).exp with
+    | none => rfl
+    | some e =>
+      obtain ⟨en, eds⟩ := e
+      exfalso; apply h
+      apply NumLink.partsOfLiteral_floatPath
+      right
+      show (toNumLit (partsOf p)).expDigits ≠ []
+      simp only [toNumLit, hex, Option.map_some, Option.getD_some]
+      exact (hw.exp en eds hex).1
+  refine ⟨?_, ?_, hf, he⟩
+  · simp only [partsOf] at hf
+    cases hp : p.frac with
+    | nil => rfl
+    | cons _ _ => rw [hp] at hf; simp at hf
+  · have he' : expOf p.exp = none := he
+    cases hp : p.exp with
+    | nil => rfl
+    | cons c r =>
+      rw [hp] at he'
+      simp only [expOf] at he'
+      split at he'
+      · split at he' <;> [cases he'; (split at he' <;> cases he')]
+      · cases he'
+
+/-- `N::PosInt(n)`: the literal is an unsigned integer literal and `n` is its exact value -/
+theorem numOfLit_pos_exact (p : NumParts) (hwf : p.WF = true) (n : Nat)
+    (h : numOfLit (litOf p) = some (.pos n)) :
+    p.minus = false ∧ p.frac = [] ∧ p.exp = [] ∧ n = natOfDigits p.int ∧ n < 2 ^ 64 := by
+  have hw := partsOf_wf p hwf
+  have hu := NumLink.numOfLit_pos _ _ h
+  obtain ⟨h1, h2, h3, h4⟩ := frac_exp_empty p hwf (fun hfp => hfp.1 n hu)
+  have hc := (NumLink.convertDefault_u64_iff (partsOf p) hw n).2 hu
+  have := (NumInt.convertDefault_eq_u64_iff (partsOf p) h3 h4 (isDigits_of_all _ hw.intDigits) n).1 hc
+  exact ⟨this.1, h1, h2, this.2.1, this.2.2⟩
+
+/-- `N::NegInt(k)`: a signed integer literal other than `-0`, `k` its exact value, within `i64` -/
+theorem numOfLit_neg_exact (p : NumParts) (hwf : p.WF = true) (k : Int)
+    (h : numOfLit (litOf p) = some (.neg k)) :
+    p.minus = true ∧ p.frac = [] ∧ p.exp = [] ∧ k = -(natOfDigits p.int : Int) ∧
+      0 < natOfDigits p.int ∧ natOfDigits p.int ≤ 2 ^ 63 := by
+  have hw := partsOf_wf p hwf
+  have hu := NumLink.numOfLit_neg _ _ h
+  obtain ⟨h1, h2, h3, h4⟩ := frac_exp_empty p hwf (fun hfp => hfp.2 k hu)
+  have hc := (NumLink.convertDefault_i64_iff (partsOf p) hw k).2 hu
+  have := (NumInt.convertDefault_eq_i64_iff (partsOf p) h3 h4 (isDigits_of_all _ hw.intDigits) k).1 hc
+  exact ⟨this.1, h1, h2, this.2.1, this.2.2.1, this.2.2.2⟩
 
 end SJ.Proofs.NumLinkParser
